@@ -263,6 +263,58 @@ def run(slice_, limit=None, only_ops=None):
         shutil.rmtree(d, ignore_errors=True)
 
 
+def rerun(slice_):
+    """run the CURRENT checks again on every mutant that survives the repository suite (results of earlier runs may stem
+    from earlier versions of the checks); results -> rerun-<i>.json"""
+    i, n = (int(x) for x in slice_.split("/"))
+    allm = {m["id"]: m for m in json.load(open(os.path.join(OUT, "sites.json")))}
+    res = {}
+    for fn in sorted(os.listdir(OUT)):
+        if fn.startswith("results-"):
+            res.update(json.load(open(os.path.join(OUT, fn))))
+    todo = sorted(k for k, r in res.items() if r["status"] == "survives-suite")
+    mine = [k for j, k in enumerate(todo) if j % n == i]
+    outf = os.path.join(OUT, "rerun-%d.json" % i)
+    out = json.load(open(outf)) if os.path.exists(outf) else {}
+    d = tempfile.mkdtemp(prefix="cct_am_")
+    os.rmdir(d)
+    subprocess.run(["git", "-C", "/repo", "worktree", "add", "-q", "--detach", d, "HEAD"], check=True)
+    try:
+        for k in mine:
+            if k in out:
+                continue
+            m = allm[k]
+            p = os.path.join(d, "conda_content_trust", m["file"])
+            orig = open(os.path.join("/repo/conda_content_trust", m["file"]), encoding="utf-8").read()
+            open(p, "w", encoding="utf-8").write(mutate(orig, m["idx"], m["op"]))
+            r = dict(res[k])
+            try:
+                fired, tried = None, []
+                # the check that fired last time first
+                order = ([res[k]["fired"]] if res[k].get("fired") else []) + [x for x in order_for(m) if x != res[k].get("fired")]
+                for pid in order:
+                    pr = subprocess.run([PY, os.path.join(HERE, "check.py"), pid, "--tier", "quick"], cwd=HERE, env=dict(os.environ, CCT_REPO=d),
+                                        stdout=subprocess.PIPE, stderr=subprocess.STDOUT)
+                    tried.append("%s:%d" % (pid, pr.returncode))
+                    if pr.returncode == 1:
+                        fired = pid
+                        mech = re.findall(r"witness mechanism=(\S+)", pr.stdout.decode("utf-8", "replace"))
+                        r["mechanism"] = mech[0] if mech else None
+                        break
+                r["fired"], r["tried"] = fired, tried
+                if not fired:
+                    r.pop("mechanism", None)
+                out[k] = r
+                print("%-50s %-28s %s" % (k, m["func"], ("FIRED " + fired) if fired else "SURVIVES ALL CHECKS"))
+                sys.stdout.flush()
+            finally:
+                open(p, "w", encoding="utf-8").write(orig)
+                json.dump(out, open(outf, "w"), indent=0)
+    finally:
+        subprocess.run(["git", "-C", "/repo", "worktree", "remove", "--force", d], stdout=subprocess.DEVNULL, stderr=subprocess.DEVNULL)
+        shutil.rmtree(d, ignore_errors=True)
+
+
 def report():
     from collections import Counter
 
@@ -270,6 +322,9 @@ def report():
     for fn in sorted(os.listdir(OUT)):
         if fn.startswith("results-"):
             res.update(json.load(open(os.path.join(OUT, fn))))
+    for fn in sorted(os.listdir(OUT)):
+        if fn.startswith("rerun-"):
+            res.update(json.load(open(os.path.join(OUT, fn))))  # the re-run with the current checks supersedes
     c = Counter(r["status"] for r in res.values())
     surv = {k: r for k, r in res.items() if r["status"] == "survives-suite"}
     caught = {k: r for k, r in surv.items() if r.get("fired")}
@@ -294,6 +349,8 @@ def main():
         gen()
     elif a.cmd == "run":
         run(a.slice, a.limit, a.ops.split(",") if a.ops else None)
+    elif a.cmd == "rerun":
+        rerun(a.slice)
     elif a.cmd == "report":
         report()
 
